@@ -676,6 +676,8 @@ def classify_arg(arg, path, R):
     segs = re.split(r"/", arg)
     if ".." in segs:
         how = "dotdot"
+    elif any(count_ups(x) for x in segs):
+        how = "decorated-dotdot"  # e.g. '..\xff', '\xc3..', '.\x07.': an ordinary name until something re-decodes it
     elif "\0" in arg:
         how = "nul"
     elif "\\" in arg:
